@@ -124,6 +124,8 @@ func main() {
 	workers := flag.Int("workers", 16, "worker count")
 	out := flag.String("out", "", "result JSON file")
 	known := flag.String("known", "", "comma-separated active known-finding exclusions")
+	shapesFile := flag.String("aliasshapes", "", "file listing the site/length shapes of the hash-alias finding (only these are assumed away)")
+	recordFile := flag.String("recordshapes", "", "development: append the shapes at which the hash-alias exclusion fires to this file")
 	solver := flag.String("solver", "z3", "primary solver")
 	timeout := flag.Int("timeout", 10000, "per-query timeout ms")
 	seed := flag.Int64("seed", 1, "seed for sampling")
@@ -134,6 +136,36 @@ func main() {
 	params := flag.String("params", "", "harness parameters name=int,...")
 	flag.Var(&overlays, "overlay", "virtual=real overlay file (repeatable)")
 	flag.Parse()
+	if *shapesFile != "" {
+		data, err := os.ReadFile(*shapesFile)
+		if err != nil {
+			fatal("aliasshapes: %v", err)
+		}
+		aliasShapes = map[string]bool{}
+		for _, l := range strings.Split(string(data), "\n") {
+			l = strings.TrimSpace(l)
+			if l != "" && !strings.HasPrefix(l, "#") {
+				aliasShapes[l] = true
+			}
+		}
+	}
+	if *recordFile != "" {
+		recordShapes = map[string]bool{}
+		defer func() {
+			old, _ := os.ReadFile(*recordFile)
+			for _, l := range strings.Split(string(old), "\n") {
+				if l = strings.TrimSpace(l); l != "" {
+					recordShapes[l] = true
+				}
+			}
+			var ls []string
+			for k := range recordShapes {
+				ls = append(ls, k)
+			}
+			sort.Strings(ls)
+			os.WriteFile(*recordFile, []byte(strings.Join(ls, "\n")+"\n"), 0644)
+		}()
+	}
 
 	t0 := time.Now()
 	ov := map[string][]byte{}
